@@ -130,7 +130,7 @@ def run(tier):
     import json
     F = json.loads(open(r0.records[0]).read().split('\n')[1])['o'][0]
     ss = []
-    for rnd in vf.rounds(tier, 6):
+    for rnd in vf.rounds(tier, 15):
         ss += list(scripts(rnd, quick, F))
     vf.trace_flow(v, 'RegpTrace.tla', 'RegpTrace.cfg', 'regp', ss, 'rxs')
     v.cov['distinct_nontrivial'] += len(set(l for s in ss for l in s))
